@@ -280,6 +280,10 @@ void partitionCase(size_t idx) {
 	ao.bones = 1 + (int)rng.below(8);   // below every bone limit: rebuilding never has to split a partition
 	ao.nv = 4 + (int)rng.below(40);
 	ao.nt = 1 + (int)rng.below(60);
+	// one case in five: more bones than a partition may use (18 before SSE, 80 there), so the rebuild has to split partitions; the labels
+	// are then renumbered, what must survive is the body part every triangle was given
+	bool split = idx % 5 == 4;
+	if (split) { ao.bones = (idx % 4 == 3 ? 90 : 24) + (int)rng.below(30); ao.nv = 60 + (int)rng.below(120); ao.nt = 40 + (int)rng.below(80); ao.maxInfluences = 2; }
 	ApiModel m = buildApiModel(seed, (int)idx, &ao);
 	if (!m.ok) return;
 	NifFile& nif = *m.nif;
@@ -314,6 +318,24 @@ void partitionCase(size_t idx) {
 		for (auto t : t2) b.insert(keyOf(normTri(t)));
 		if (a != b) { R_viol("partition-labels", std::string(stage) + "/triangles-not-a-permutation", what + ": triangles changed"); return false; }
 		uint32_t expectParts = (uint32_t)np + (withUnassigned && std::count(tp.begin(), tp.end(), -1) ? 1 : 0);
+		bool dismemberV = f.GetHeader().GetVersion().File() == NiFileVersion::V20_2_0_7;
+		bool wasSplit = split && inf2.size() > expectParts;
+		if (wasSplit) {
+			// partitions were split: indices moved, every assigned triangle still belongs to the body part it was given
+			for (size_t i = 0; i < t2.size(); i++) {
+				int want = labelOf.at(keyOf(normTri(t2[i])));
+				if (tp2[i] < 0 || tp2[i] >= (int)inf2.size()) { R_viol("partition-labels", std::string(stage) + "/triangle-unassigned", what + fmt(": triangle %zu reads back partition %d of %u", i, tp2[i], inf2.size())); return false; }
+				if (dismemberV && want >= 0 && inf2[(uint32_t)tp2[i]].partID != ninf[(uint32_t)want].partID) {
+					R_viol("partition-labels", std::string(stage) + "/body-part-not-preserved-across-split", what + fmt(": triangle %zu was given body part %u (partition %d of %d), after the rebuild split partitions (%u now) it sits in partition %d with body part %u", i, ninf[(uint32_t)want].partID, want, np, inf2.size(), tp2[i], inf2[(uint32_t)tp2[i]].partID));
+					return false;
+				}
+			}
+			auto errs = checkPartitions(f, sh, true);
+			for (auto& e : errs) { R_viol("partition-labels", std::string(stage) + "/" + invClass(e), what + ": " + e); return false; }
+			R_stat("models_whose_partitions_were_split");
+			R_stat("triangles_label_checked", (long)t2.size());
+			return true;
+		}
 		for (size_t i = 0; i < t2.size(); i++) {
 			int want = labelOf.at(keyOf(normTri(t2[i])));
 			if (tp2[i] < 0 || tp2[i] >= (int)inf2.size()) { R_viol("partition-labels", std::string(stage) + "/triangle-unassigned", what + fmt(": triangle %zu reads back partition %d of %u", i, tp2[i], inf2.size())); return false; }
@@ -337,7 +359,7 @@ void partitionCase(size_t idx) {
 	if (!verify(re, re.GetShapes()[0], "after-reload")) return;
 	// deleting a partition while the per-triangle labels are cached (the Get above filled the cache): the labels follow the renumbering,
 	// triangles of the deleted partition become unassigned
-	if (!withUnassigned) {
+	if (!withUnassigned && !split) {
 		NiVector<BSDismemberSkinInstance::PartitionInfo> i0, i1;
 		std::vector<int> t0, t1;
 		if (nif.GetShapePartitions(s, i0, t0) && i0.size() >= 2) {
@@ -531,7 +553,7 @@ MonReg reg({"C17", "exploration",
 			"FO4/FO76 BSSubIndexTriShape built through the API. Exhaustive: 0..4 (quick) / 0..6 (thorough) triangles x every label list over {-1,0,1,2} x three segment structures "
 			"(3 flat segments, 1 segment with 2 sub-segments, 2 segments the second with a sub-segment, permuted ids). Random: 3..62 vertices, 0..200 triangles, 1..5 segments with 0..3 "
 			"sub-segments, permuted ids, label modes (all assigned, 25% unassigned, all in first, all in last, skewed), user slots below/above 30, extra data; half of them followed by a "
-			"random vertex deletion. Partition labels: OB/FO3/SK/SSE skinned shapes, 1..4 partitions, 25% unassigned; the skinned shapes of the real samples (incl. strip partitions) labelled without a query before or a rebuild after, then copied, saved+reloaded or cut by a vertex deletion. Oracle after set, after set(get()), after save+reload and after "
+			"random vertex deletion. Partition labels: OB/FO3/SK/SSE skinned shapes, 1..4 partitions, 25% unassigned (one in five with more bones than a partition may use: the rebuild splits, every triangle keeps its body part); the skinned shapes of the real samples (incl. strip partitions) labelled without a query before or a rebuild after, then copied, saved+reloaded or cut by a vertex deletion. Oracle after set, after set(get()), after save+reload and after "
 			"vertex deletion(+reload): triangles are a permutation, read-back ids increase in segment order, every assigned label is preserved under the renumbering, every triangle "
 			"is labelled, label runs contiguous and ordered, stored table contiguous/nested/summing to the triangle count, user-slot/material/extra data kept; getters are handed output objects that still hold an earlier answer; finally the segmentation is removed (no segments, all -1) and must read back as such in memory and after reload. Non-trivial = case that passed all stages.",
 			[] { Plan p = plan(); return exhCases(p.exhN) + p.randomSeg + p.parts + realSamples().size() * 2; }, run, 6, 300.0, false, false, nullptr});
